@@ -5,9 +5,9 @@
    L = logVertexCount, keep = Settings::keepRowNumber, a "group" = the columns of one Add(column, columns...) call.
    group_ok: codes are 64-bit, 0 < size <= 2^32, alignment in {1,2,4,8,16} dividing the size
    (ObjectAlignmenter::Check), fewer than 2^32 columns in one call. *)
-From Coq Require Import ZArith List.
+From Coq Require Import ZArith List Bool.
 From MomoCommon Require Import GenPrelude.
-From C18 Require Gen_Vertices Gen_Ceil Model Layout Fill Vertices Inv Main RawLife.
+From C18 Require Gen_Vertices Gen_Ceil Model Layout Fill Vertices Bits Inv Main RawLife Static.
 Import ListNotations.
 Local Open Scope Z_scope.
 
@@ -94,6 +94,7 @@ Theorem C18_add_spec :
     | Model.TooMany => Model.maxColumnCount L < Z.of_nat (length cs) + Z.of_nat (length (Model.columns st))
     | Model.Refused => forall cp, Model.codeParam st <= cp <= 255 ->
                    exists a1 o1 l1 r1, Model.try_param L st cp cs = Some (false, a1, o1, l1, r1)
+    | Model.AllocFailed _ => False
     | Model.OutOfFuel => False
     | Model.AssertFails => False
     end.
@@ -139,12 +140,112 @@ Theorem C18_contains_offset :
 Proof. exact Main.reachable_contains. Qed.
 Print Assumptions C18_contains_offset.
 
-(* refused_add_unchanged: whatever is not `Added` leaves the object exactly as it was (both throws of pvAdd happen
-   before the first member is written; see NOTES.md for the allocation failures that are not modelled) *)
+(* refused_add_unchanged (no allocation failure): whatever is neither `Added` nor `AllocFailed` leaves the object
+   exactly as it was (both throws of pvAdd happen before the first member is written) *)
 Theorem C18_refused_add_unchanged :
-  forall L st cs, (forall st', Model.add L st cs <> Model.Added st') -> Model.after st (Model.add L st cs) = st.
+  forall L st cs, (forall st', Model.add L st cs <> Model.Added st') -> (forall st', Model.add L st cs <> Model.AllocFailed st') ->
+    Model.after st (Model.add L st cs) = st.
 Proof. exact Inv.refused_unchanged. Qed.
 Print Assumptions C18_refused_add_unchanged.
+
+(* pvAdd with an allocation failing at ANY place fs (mColumns/mFuncRecords.Reserve, mMutableOffsets.SetCount, or
+   mColumnCodeSet.Insert after j keys with the catch block removing the new keys) or nowhere: as C18_add_spec, and a
+   failed Add leaves a state that satisfies the invariant and is observably unchanged *)
+Theorem C18_add_with_allocation_failures :
+  forall L keep, 4 <= L <= 15 -> forall fs st cs, Inv.Inv L keep st -> Inv.group_ok cs ->
+    match Model.add_f L fs st cs with
+    | Model.Added st' =>
+        Inv.Inv L keep st' /\
+        (exists rs, Model.columns st' = Model.columns st ++ rs /\ map Model.r_code rs = map Model.c_code cs /\
+                    map Model.r_size rs = map Model.c_size cs /\ map Model.r_align rs = map Model.c_align cs /\
+                    map Model.r_mut rs = map Model.c_mut cs /\ Layout.chain (Model.totalSize st) rs (Model.totalSize st')) /\
+        Model.totalSize st <= Model.totalSize st' /\ Model.alignment st <= Model.alignment st' /\
+        Model.codeParam st <= Model.codeParam st' /\ fs = Model.NoFail
+    | Model.TooMany => Model.maxColumnCount L < Z.of_nat (length cs) + Z.of_nat (length (Model.columns st))
+    | Model.Refused => forall cp, Model.codeParam st <= cp <= 255 ->
+                   exists a1 o1 l1 r1, Model.try_param L st cp cs = Some (false, a1, o1, l1, r1)
+    | Model.AllocFailed st' => Inv.Inv L keep st' /\ Inv.unchanged_obs st st' /\ fs <> Model.NoFail
+    | Model.OutOfFuel => False
+    | Model.AssertFails => False
+    end.
+Proof. exact Inv.add_f_spec. Qed.
+Print Assumptions C18_add_with_allocation_failures.
+
+(* refused_add_unchanged for ALL failure outcomes, after ANY history in which allocations failed anywhere: an Add that
+   is not accepted (Too many / Cannot add / bad_alloc) leaves codeParam, addends, sizes, records, the code set (as a
+   set) and every IsMutable answer as they were, hence also every GetOffset and every Contains answer *)
+Theorem C18_refused_or_failed_add_unchanged :
+  forall L keep, 4 <= L <= 15 -> forall ops fs cs,
+    Forall (fun op => Inv.group_ok (snd op)) ops -> Inv.group_ok cs ->
+    (forall st', Model.add_f L fs (Model.run_f L keep ops) cs <> Model.Added st') ->
+    Inv.unchanged_obs (Model.run_f L keep ops) (Model.run_f L keep (ops ++ [(fs, cs)])) /\
+    (forall code, Model.get_offset L (Model.run_f L keep (ops ++ [(fs, cs)])) code = Model.get_offset L (Model.run_f L keep ops) code) /\
+    (forall code, Model.contains L (Model.run_f L keep (ops ++ [(fs, cs)])) code = Model.contains L (Model.run_f L keep ops) code).
+Proof. exact Main.refused_or_failed_add_unchanged. Qed.
+Print Assumptions C18_refused_or_failed_add_unchanged.
+
+Theorem C18_reachable_invariant_with_failures :
+  forall L keep, 4 <= L <= 15 -> forall ops, Forall (fun op => Inv.group_ok (snd op)) ops -> Inv.Inv L keep (Model.run_f L keep ops).
+Proof. exact Main.reachable_f_invariant. Qed.
+Print Assumptions C18_reachable_invariant_with_failures.
+
+(* Graph::mEdgeStorage: under the "Too many columns" guard, for every code parameter tried, the graph handed to
+   FillAddends holds exactly 2 * (old + new columns) Edge records -- never more than maxEdgeCount = 2 * maxColumnCount,
+   the size of mEdgeStorage (= vertexCount, below the 2 * vertexCount of the MOMO_ASSERT in pvAddEdge) *)
+Theorem C18_edge_storage_bound :
+  forall L, 4 <= L <= 15 -> forall st cs cp, 0 <= cp <= 255 ->
+    Z.of_nat (length cs) + Z.of_nat (length (Model.columns st)) <= Model.maxColumnCount L ->
+    let '(g1, _, _, _) := Model.new_edges L cp (Model.old_edges L cp Model.g_empty (Model.columns st))
+                                          (Model.totalSize st) (Model.alignment st) cs in
+    Inv.gsize g1 (Model.vertices L) = 2 * (Z.of_nat (length (Model.columns st)) + Z.of_nat (length cs)) /\
+    Inv.gsize g1 (Model.vertices L) <= Inv.maxEdgeCount L /\ Inv.maxEdgeCount L = Model.vertexCount L.
+Proof. exact Inv.edge_storage_bound. Qed.
+Print Assumptions C18_edge_storage_bound.
+
+(* the bit array (UIntMath<uint8_t>::SetBit / GetBit as used by mMutableOffsets) *)
+Theorem C18_getbit_setbit :
+  forall b i j, 0 <= i -> 0 <= j -> Bits.bytes_ok b ->
+    Model.GetBit (Model.SetBit b i) j = Z.eqb i j || Model.GetBit b j.
+Proof. exact Bits.GetBit_SetBit. Qed.
+Print Assumptions C18_getbit_setbit.
+
+(* IsMutable in every reachable state (whatever allocations failed on the way): at a column's offset it is true iff
+   the column was added as mutable, and it is true at no other offset *)
+Theorem C18_is_mutable_iff_added_mutable :
+  forall L keep, 4 <= L <= 15 -> forall ops, Forall (fun op => Inv.group_ok (snd op)) ops ->
+    (forall r, In r (Model.columns (Model.run_f L keep ops)) ->
+       Model.is_mutable (Model.run_f L keep ops) (Model.r_off r) = Model.r_mut r) /\
+    (forall o, 0 <= o -> Model.is_mutable (Model.run_f L keep ops) o = true ->
+       exists r, In r (Model.columns (Model.run_f L keep ops)) /\ Model.r_off r = o /\ Model.r_mut r = true).
+Proof. exact Main.reachable_is_mutable. Qed.
+Print Assumptions C18_is_mutable_iff_added_mutable.
+
+(* DataColumnListStatic over a struct laid out by the natural rule (compared with the compiler's offsetof on every
+   run): members in order, aligned, disjoint, inside sizeof; sizeof a multiple of the alignment; every member offset
+   (= column code) passes the assertion of pvGetOffset and is returned unchanged by GetOffset / Contains *)
+Theorem C18_static_layout_ok :
+  forall ms sz al rs, Forall Layout.col_ok ms -> Z.of_nat (length ms) * (Layout.maxItemSize + 16) <= 2 ^ 62 ->
+    Static.struct_layout ms = (sz, al, rs) ->
+    Layout.chain 0 rs sz /\ sz mod al = 0 /\ Layout.pow2_le16 al /\
+    map Model.r_size rs = map Model.c_size ms /\ map Model.r_align rs = map Model.c_align ms /\
+    (forall r, In r rs -> Static.s_get_offset sz (Model.r_off r) = Some (Model.r_off r) /\
+                          Model.r_off r + Model.r_size r <= sz /\ (Model.r_align r | al)).
+Proof. exact Static.struct_layout_ok. Qed.
+Print Assumptions C18_static_layout_ok.
+
+(* SetMutable(columns...) on the static list: IsMutable(o) afterwards = it was before, or o is one of the offsets *)
+Theorem C18_static_set_mutable :
+  forall codes b o, Bits.bytes_ok b -> Forall (fun c => 0 <= c) codes -> 0 <= o ->
+    Static.s_is_mutable (Static.s_set_mutable b codes) o = Static.s_is_mutable b o || existsb (Z.eqb o) codes.
+Proof. exact Static.s_set_mutable_get. Qed.
+Print Assumptions C18_static_set_mutable.
+
+(* the dynamic list (no row number) given the same columns in one Add assigns exactly the struct's member offsets *)
+Theorem C18_dynamic_matches_struct :
+  forall L cp ms g' off al rs, Model.new_edges L cp Model.g_empty 0 1 ms = (g', off, al, rs) ->
+    snd (Static.struct_layout ms) = rs /\ snd (fst (Static.struct_layout ms)) = al.
+Proof. exact Static.dynamic_matches_struct. Qed.
+Print Assumptions C18_dynamic_matches_struct.
 
 (* L2, rows: pvCreateRaw / pvCreate<Item, Items...> (CreateRaw and ImportRaw) for any grouping of the columns into
    FuncRecords and any construction that throws (k = which one): either it completes having constructed every
